@@ -134,6 +134,14 @@ def run(ctx):
     deep = any(memo is not None and ("param", memo) in e["args"] and any(x[0] in ("unpack", "val") for x in N.walk(e["args"][0])) for e in calls)
     ctx.ob("C20.R2", fi, uses_memo, "__deepcopy__ takes part in the memo protocol (registers itself / passes memo on)", key="deepcopy memo")
     ctx.ob("C20.R2", fi, deep, "__deepcopy__ deep-copies the values (independent at every depth)", key="deepcopy values")
+    # the copy is registered in the memo under id(self) before any entry is copied: a container that (indirectly) contains itself -- every
+    # nested context does, through _root -- is otherwise copied without end, and a container shared by two entries is duplicated
+    reg = True
+    for p in paths:
+        regs = [i for i, e in enumerate(p.events) if e.kind == "STORE" and memo is not None and e["base"] == ("param", memo) and e["key"] == ("call", ("free", "id"), (SELF,), ()) and e["value"] == p.retval]
+        first_copy = next((i for i, e in enumerate(p.events) if e.kind == "CALL" and is_deepcopy(e["func"])), len(p.events))
+        reg = reg and bool(regs) and regs[0] < first_copy
+    ctx.ob("C20.R2", fi, reg and bool(paths), "__deepcopy__ registers the new container as memo[id(self)] before copying any entry (cycles and shared entries)", key="deepcopy registers self")
     # every entry that reaches the result was deep-copied: no iteration path stores a value by reference or skips an entry
     every = True
     iters = 0
